@@ -38,7 +38,7 @@ def c02parse : Handler :=
   `c05.ops <start> <n> op* => <startOk> <n> (id bytes)* reads <n> step* final`
      start := hdr <header> | wire <bytes>
      op    := set <id> <bytes> | del <id>
-     reads := <list u8 ids> <n> (id obytes)*
+     reads := <bool X> <u16 profile> <list u8 ids> <n> (id obytes)*
      step  := (ok | err <k> | panic) reads
      final := <bool X> <u16 profile> <res bytes marshal> (ok | err <k> | panic) <n> (id obytes)*
 -/
@@ -61,8 +61,9 @@ def rdStart : Rd Pred.C05.Start := do
 def rdIdVal : Rd (UInt8 × Option Bytes) := do let id ← Rd.u8; let v ← Rd.obytes; pure (id, v)
 
 def rdReads : Rd Pred.C05.Reads := do
+  let x ← Rd.bool; let prof ← Rd.u16
   let ids ← Rd.list Rd.u8; let gets ← Rd.list rdIdVal
-  pure { ids := ids, gets := gets }
+  pure { x := x, profile := prof, ids := ids, gets := gets }
 
 def rdStepObs : Rd Pred.C05.StepObs := do
   let r ← Rd.resC Rd.unit; let rs ← rdReads
